@@ -385,7 +385,9 @@ class Response:
             chunk_size = "%X\r\n" % nbytes
             self.sock.sendall(chunk_size.encode('utf-8'))
         if nbytes > 0:
-            self.sock.sendfile(respiter.filelike, offset=offset, count=nbytes)
+            sent = self.sock.sendfile(respiter.filelike, offset=offset, count=nbytes)
+            # account for the body like write() does (access log %(b)s / %(B)s)
+            self.sent += sent or 0
 
         if self.is_chunked() and nbytes > 0:
             self.sock.sendall(b"\r\n")
